@@ -997,7 +997,7 @@ fn cmd_run(o: &Opts) -> i32 {
         if let Some(alt) = &ctx.alt {
             let same_hash = alt.reference.hash == ctx.reference.hash;
             two_note = format!(
-                "alternative build with {} constants whose asset files have the same names and sizes but other content; its hash {} the main build's",
+                "alternative build with {} constants whose asset files have the same names, compressed sizes, uncompressed lengths and CRC-32 but other content; its hash {} the main build's",
                 alt.shipped.constants.len(),
                 if same_hash { "EQUALS" } else { "differs from" }
             );
@@ -1326,6 +1326,104 @@ fn cmd_determinism(o: &Opts) -> i32 {
 
 /// Write a copy of `<repo>/db` to `dst` in which every fact asset has the same name and the same
 /// size but other content (one letter of three descriptions changed), for the two-build histories.
+// CRC-32 (the one in the gzip trailer), forwards and backwards, so that altered data can be given the
+// original's checksum again: a fingerprint of the embedded data that looks at less than the content
+// (sizes, lengths, checksums of the container) must not be able to tell the two builds apart, or the
+// two-build histories would not test what "written for other data" means.
+fn crc_tables() -> ([u32; 256], [u32; 256]) {
+    let mut t = [0u32; 256];
+    for i in 0..256u32 {
+        let mut c = i;
+        for _ in 0..8 {
+            c = if c & 1 != 0 { 0xedb8_8320 ^ (c >> 1) } else { c >> 1 };
+        }
+        t[i as usize] = c;
+    }
+    // r[top byte of t[j]] = j
+    let mut r = [0u32; 256];
+    for j in 0..256u32 {
+        r[(t[j as usize] >> 24) as usize] = j;
+    }
+    (t, r)
+}
+
+fn crc_forward(t: &[u32; 256], mut state: u32, data: &[u8]) -> u32 {
+    for b in data {
+        state = t[((state ^ *b as u32) & 0xff) as usize] ^ (state >> 8);
+    }
+    state
+}
+
+fn crc_backward(t: &[u32; 256], r: &[u32; 256], mut state: u32, data: &[u8]) -> u32 {
+    for b in data.iter().rev() {
+        let j = r[(state >> 24) as usize];
+        state = ((state ^ t[j as usize]) << 8) | ((j ^ *b as u32) & 0xff);
+    }
+    state
+}
+
+/// Overwrite `data[p..p+4]` so that the CRC-32 of all of `data` becomes `target`.
+fn crc_patch(data: &mut [u8], p: usize, target: u32) {
+    let (t, r) = crc_tables();
+    let a = crc_forward(&t, !0u32, &data[..p]);
+    let b = crc_backward(&t, &r, !target, &data[p + 4..]);
+    let c = crc_backward(&t, &r, b, &[0, 0, 0, 0]);
+    data[p..p + 4].copy_from_slice(&(a ^ c).to_le_bytes());
+}
+
+fn crc32(data: &[u8]) -> u32 {
+    let (t, _) = crc_tables();
+    !crc_forward(&t, !0u32, data)
+}
+
+/// The byte ranges of the values of all `description` keys (CBOR text strings) in a raw asset.
+fn description_ranges(raw: &[u8]) -> Vec<std::ops::Range<usize>> {
+    let needle = b"\x6bdescription";
+    let mut out = Vec::new();
+    let mut i = 0;
+    while i + needle.len() + 3 < raw.len() {
+        if &raw[i..i + needle.len()] == needle {
+            let h = i + needle.len();
+            let (start, len) = match raw[h] {
+                b @ 0x60..=0x77 => (h + 1, (b - 0x60) as usize),
+                0x78 => (h + 2, raw[h + 1] as usize),
+                0x79 => (h + 3, u16::from_be_bytes([raw[h + 1], raw[h + 2]]) as usize),
+                _ => (0, 0),
+            };
+            if len > 0 && start + len <= raw.len() {
+                out.push(start..start + len);
+            }
+            i = h;
+        }
+        i += 1;
+    }
+    out
+}
+
+/// Give `r` (an altered copy of `raw`, same length) the CRC-32 of `raw` again by rewriting five
+/// bytes inside a description text that both copies still share, keeping them printable ASCII.
+/// Returns false when no such place is found.
+fn restore_crc(raw: &[u8], r: &mut Vec<u8>) -> bool {
+    let target = crc32(raw);
+    let printable = |b: u8| (0x20..0x7f).contains(&b);
+    for range in description_ranges(raw).into_iter().rev() {
+        if range.len() < 8 || !range.clone().all(|i| r[i] == raw[i] && printable(r[i])) {
+            continue;
+        }
+        let p = range.start + 1;
+        for v in 0x20u8..0x7f {
+            let mut c = r.clone();
+            c[p] = v;
+            crc_patch(&mut c, p + 1, target);
+            if c[p + 1..p + 5].iter().all(|b| printable(*b)) && crc32(&c) == target {
+                *r = c;
+                return true;
+            }
+        }
+    }
+    false
+}
+
 fn cmd_mkdata(o: &Opts) -> i32 {
     use std::io::{Read, Write};
     let args: Vec<String> = std::env::args().skip(2).collect();
@@ -1366,6 +1464,10 @@ fn cmd_mkdata(o: &Opts) -> i32 {
                 }
                 if hits == 0 {
                     break;
+                }
+                // same uncompressed length already; now the same CRC-32 as well
+                if !restore_crc(&raw, &mut r) {
+                    continue;
                 }
                 let mut enc = flate2::GzBuilder::new().write(Vec::new(), flate2::Compression::best());
                 enc.write_all(&r).unwrap();
